@@ -415,3 +415,42 @@ def _zero_init_in_same_block(txt, call_pos, sym, macro):
             (before.count("{") - len(re.findall(r"\{\s*0\.0\s*\}", before))) != (before.count("}") - len(re.findall(r"\{\s*0\.0\s*\}", before))):
         return False, f"declaration of {sym} is in a nested block"
     return True, ""
+
+
+def driver_alloc_items(tier):
+    """C03 / C02 / C19: every place of the rendered cvode driver that allocates the state vector, the Jacobian or the saved
+    states uses the system size NEQUATIONS (not NSPECIES: with thermal processes there is one more equation), the sparse
+    Jacobian is created in the CSR format that Jac() fills, with NNZ entries - in Init() AND in Reset()."""
+    from .native_ode import render, networks
+    from pyvc import cmini
+    items = []
+    label, fac = next(x for x in networks("quick", 0) if x[0] == "cooling-1")
+    for backend in [("cvode", "dense", "cpu"), ("cvode", "sparse", "cpu"), ("cvode", "cusparse", "gpu")]:
+        pre = f"driver/{'/'.join(backend[:2])}"
+        files = render(fac(), *backend, jac_pattern=False)
+        ext = "cu" if backend[2] == "gpu" else "cpp"
+        text = cmini.strip(files.get(f"src/naunet.{ext}", files.get("src/naunet.cpp", "")))
+        hdr = cmini.strip(files["include/naunet.h"])
+        sites = []
+        for m in re.finditer(r"\bcv_a_(?:\[i\])?\s*=\s*(\w+)\(([^;]*?)\);", text, flags=re.S):
+            sites.append((m.group(1), [a.strip() for a in m.group(2).split(",")]))
+        items.append(item(f"{pre}/jacobian-allocated-in-Init-and-Reset", len(sites) >= 2, f"{len(sites)} allocation sites"))
+        for k, (fn, args) in enumerate(sites):
+            if fn == "SUNDenseMatrix":
+                ok = args[:2] == ["NEQUATIONS", "NEQUATIONS"] and backend[1] == "dense"
+            elif fn == "SUNSparseMatrix":
+                ok = args[:4] == ["NEQUATIONS", "NEQUATIONS", "NNZ", "CSR_MAT"] and backend[1] == "sparse"
+            elif fn == "SUNMatrix_cuSparse_NewBlockCSR":
+                ok = args[1:4] == ["NEQUATIONS", "NEQUATIONS", "NNZ"] and backend[1] == "cusparse"
+            else:
+                ok = False
+            items.append(item(f"{pre}/jacobian-allocation#{k}-has-system-size-and-CSR-layout", ok, f"{fn}({', '.join(args[:5])})"))
+        vec = re.findall(r"\bcv_y_(?:\[i\])?\s*=\s*(\w+)\(\s*(?:\(sunindextype\))?\s*([^,]*),", text)
+        items.append(item(f"{pre}/state-vector-has-system-size", bool(vec) and all(a.strip().startswith("NEQUATIONS") for _, a in vec), f"{vec}"))
+        if backend[1] != "cusparse":
+            for arr, size in (("ab_init_", "NEQUATIONS"), ("ab_tmp_", "NEQUATIONS")):
+                m = re.search(rf"\b{arr}\[(\w+)\]\s*;", hdr)
+                items.append(item(f"{pre}/saved-state-{arr}-has-system-size", m is not None and m.group(1) == size, m.group(0) if m else "not declared"))
+        m = re.search(r"\bab_ref_\[(\w+)\]\s*;", hdr)
+        items.append(item(f"{pre}/reference-ratios-have-one-entry-per-element", m is not None and m.group(1) == "NELEMENTS", m.group(0) if m else "not declared"))
+    return items
